@@ -93,24 +93,29 @@ theorem consumer_status (ps : Params) (full : Bool) :
                payload := .status (param ps "cluster") (param ps "consumer") none })) :=
   ⟨fun _ _ h => by rw [consumerStatus_found be w ps full h], fun _ h => consumerStatus_notfound be w ps full h⟩
 
-/-- config-backed routes: a name that is a single key segment and is not one of the configured
-    modules of that kind gets 404 with `error=true` (requested names containing dots: see
-    `dotted_name_witness`; `Plain`: no configured key contains a dot — otherwise viper's longest-prefix
-    resolution applies, see `Props/C18.lean: dotted_module_leak_witness`) -/
-theorem unknown_config_is_404 (c : Cfg) (hpl : c.Plain) (kind name n : String) (fs : List (String × String × Getter)) (b : Bool)
-    (hseg : keyPath name = [n]) (hunknown : n ∉ c.children [kind]) :
+/-- config-backed routes: a name that is not one of the configured modules of that kind gets 404 with
+    `error=true` — for EVERY name (dots, list indexes, anything) and every configuration, since the
+    repair (`moduleConfigured`: the request name is looked up among the keys of the kind's table and
+    never handed to viper as a key path before that) -/
+theorem unknown_config_is_404 (c : Cfg) (kind name : String) (fs : List (String × String × Getter)) (b : Bool)
+    (hunknown : name.toLower ∉ c.vChildren [kind]) :
     moduleDetail c kind name fs b = notFoundErr := by
-  have : c.isSet [kind, n] = false := by
-    cases h : c.isSet [kind, n] with
-    | false => rfl
-    | true => exact absurd ((isSet_child c kind n).mp h) hunknown
-  simp [moduleDetail, moduleDetailAt, hseg, vSet_plain hpl, this]
+  simp [moduleDetail, moduleConfigured, hunknown]
 
-theorem known_config_is_200 (c : Cfg) (hpl : c.Plain) (kind name n : String) (fs : List (String × String × Getter)) (b : Bool)
-    (hseg : keyPath name = [n]) (hknown : n ∈ c.children [kind]) :
+theorem known_config_is_200 (c : Cfg) (kind name : String) (fs : List (String × String × Getter)) (b : Bool)
+    (hknown : name.toLower ∈ c.vChildren [kind]) :
     (moduleDetail c kind name fs b).code = 200 ∧ (moduleDetail c kind name fs b).err = some false := by
-  have : c.isSet [kind, n] = true := (isSet_child c kind n).mpr hknown
-  simp [moduleDetail, moduleDetailAt, hseg, vSet_plain hpl, this, ok]
+  simp [moduleDetail, moduleConfigured, moduleDetailAt, hknown, ok]
+
+/-- the same for the notifier detail route (whose handler dispatches on the module's class) -/
+theorem unknown_notifier_is_404 (c : Cfg) (name : String) (hunknown : name.toLower ∉ c.vChildren ["notifier"]) :
+    notifierDetailResp c name = notFoundErr := by
+  simp [notifierDetailResp, moduleConfigured, hunknown]
+
+/-- on a configuration without dotted keys the configured modules of a kind are the keys directly
+    under it (`viper.GetStringMap(kind)`) -/
+theorem configured_modules_plain (c : Cfg) (hpl : c.Plain) (kind : String) : c.vChildren [kind] = c.children [kind] :=
+  vChildren_plain hpl [kind]
 
 /-- **reads are pure**: no handler other than DELETE changes the world, except that a consumer
     detail / status read leaves it as the backend's lookup does … -/
@@ -131,11 +136,14 @@ theorem storage_lookup_only_drops_expired (s : Storage.Store) (now : Int) (c g :
 
 /-! ### known findings (the statement is false of the code at these points; witnesses) -/
 
-/-- D15: a dotted name reaches into the configuration — `cluster.c0.servers` is "set", so a request for
-    the cluster named "c0.servers" (`keyPath "c0.servers" = ["c0", "servers"]`) is answered 200 -/
-theorem dotted_name_witness :
-    (moduleDetailAt [(["cluster", "c0", "servers"], .list ["k:9092"])] ["cluster", "c0", "servers"] clusterFields true).code = 200 := by
-  decide
+/-- D15 (repaired): a dotted name no longer reaches into the configuration — with `cluster.c0.servers`
+    set, a request for the cluster named "c0.servers" is answered 404 (it was 200: `viper.IsSet`
+    follows the dots; "c0.servers.-1" made viper index a list out of range) -/
+theorem dotted_name_is_404 (name : String) (hname : name.toLower ≠ "c0") (fs : List (String × String × Getter)) (b : Bool) :
+    moduleDetail [(["cluster", "c0", "servers"], .list ["k:9092"])] "cluster" name fs b = notFoundErr := by
+  apply unknown_config_is_404
+  rw [show Cfg.vChildren [(["cluster", "c0", "servers"], .list ["k:9092"])] ["cluster"] = ["c0"] from by decide]
+  simpa using hname
 
 /-- D18: DELETE answers 200 whatever the backend knows about the cluster or group -/
 theorem delete_unknown_witness (ps : Params) : (handle be w "handleConsumerDelete" ps).2 = ok .none := by
